@@ -254,16 +254,22 @@ func (m *BaseUndoLogManager) Undo(ctx context.Context, dbType types.DBType, xid 
 	if err != nil {
 		return err
 	}
+	// give the connection back to the pool in every case
+	defer conn.Close()
 
 	tx, err := conn.BeginTx(ctx, &sql.TxOptions{})
 	if err != nil {
 		return err
 	}
 	defer func() {
+		if r := recover(); r != nil {
+			err = fmt.Errorf("undo panic, xid: %s, branchID: %d, %v", xid, branchID, r)
+		}
+		// a failed undo must stay a failure for the caller and must not leave
+		// the local transaction open
 		if err != nil {
-			if err = tx.Rollback(); err != nil {
-				log.Errorf("rollback fail, xid: %s, branchID:%s err:%v", xid, branchID, err)
-				return
+			if rerr := tx.Rollback(); rerr != nil {
+				log.Errorf("rollback fail, xid: %s, branchID:%s err:%v", xid, branchID, rerr)
 			}
 		}
 	}()
@@ -274,9 +280,8 @@ func (m *BaseUndoLogManager) Undo(ctx context.Context, dbType types.DBType, xid 
 		return err
 	}
 	defer func() {
-		if err = stmt.Close(); err != nil {
-			log.Errorf("stmt close fail, xid: %s, branchID:%s err:%v", xid, branchID, err)
-			return
+		if cerr := stmt.Close(); cerr != nil {
+			log.Errorf("stmt close fail, xid: %s, branchID:%s err:%v", xid, branchID, cerr)
 		}
 	}()
 
@@ -286,9 +291,8 @@ func (m *BaseUndoLogManager) Undo(ctx context.Context, dbType types.DBType, xid 
 		return err
 	}
 	defer func() {
-		if err = rows.Close(); err != nil {
-			log.Errorf("rows close fail, xid: %s, branchID:%s err:%v", xid, branchID, err)
-			return
+		if cerr := rows.Close(); cerr != nil {
+			log.Errorf("rows close fail, xid: %s, branchID:%s err:%v", xid, branchID, cerr)
 		}
 	}()
 
@@ -376,7 +380,7 @@ func (m *BaseUndoLogManager) Undo(ctx context.Context, dbType types.DBType, xid 
 
 	if err = tx.Commit(); err != nil {
 		log.Errorf("[Undo] execute on fail, err: %v", err)
-		return nil
+		return err
 	}
 	return nil
 }
